@@ -157,6 +157,13 @@ pub fn render(form: &Value) -> String {
             1 => format!("(+ 1 (also-undefined-{} 2))", a[1]),
             _ => "(define (broken) (let ((x 1)) (nope-not-defined x)))".to_string(),
         },
+        // a macro definition for the name of an existing function, in a program that
+        // is then rejected at compile time
+        "fail-ct-macro" => format!(
+            "(define-syntax {n} (syntax-rules () [({n} . args) 'from-rejected-program]))\n(undefined-name-{u})",
+            n = a[1].as_str().unwrap_or("nobody"),
+            u = a[2]
+        ),
         "gc" => "(#%gc-collect)".to_string(),
         _ => "(void)".to_string(),
     }
@@ -351,12 +358,20 @@ pub fn gen_history(rng: &mut Rng, thorough: bool) -> Value {
             steps.push(Value::Array(forms));
         }
     }
+    // last step of 1 history in 6: a program that defines a macro under the name
+    // of an existing function and is then rejected at compile time. It comes
+    // last because the recorded defect (the macro stays) changes what every
+    // later piece of new code means.
+    if rng.chance(1, 6) && !fns.is_empty() {
+        let victim = *rng.pick(&fns);
+        steps.push(json!([["fail-ct-macro", victim, 9999]]));
+    }
     json!({"jit": jit, "threshold": threshold, "gc": [*rng.pick(&[0u64, 0, 1, 1]), *rng.pick(&[16u64, 64])], "steps": steps})
 }
 
 fn class_of_failure(forms: &[Value]) -> (&'static str, usize) {
     for (i, f) in forms.iter().enumerate() {
-        if f[0] == "fail-ct" {
+        if f[0] == "fail-ct" || f[0] == "fail-ct-macro" {
             return ("ct", i);
         }
     }
@@ -460,7 +475,9 @@ impl<'a> Run<'a> {
             return;
         }
         // classify
-        let class = if is_fn && self.model.folded_read(b) {
+        let class = if matches!(&got, Ok(g) if g.contains("from-rejected-program")) {
+            "macro-from-rejected-program"
+        } else if is_fn && self.model.folded_read(b) {
             "same-eval-constant-folded"
         } else if context == "after-runtime-error-define" {
             "redefine-after-runtime-error"
@@ -473,7 +490,7 @@ impl<'a> Run<'a> {
             "step {}: {} evaluates to {:?}, the binding model says {:?} ({})",
             step, src, got, expect, context
         );
-        if class == "same-eval-constant-folded" || class == "redefine-after-runtime-error" {
+        if class == "same-eval-constant-folded" || class == "redefine-after-runtime-error" || class == "macro-from-rejected-program" {
             // recorded defect classes: note, adopt what the engine does for
             // this binding and go on, so that other violations are still seen
             self.known_hits.push((format!("C06/wrong-value/{}", class), detail));
